@@ -215,6 +215,27 @@ def _observe(env, st, obs, d, extra):
         if mean is not None:
             out.append(("kernel mean", mean))
         return out
+    if obs == "pnm_sampling_inputs":
+        # Gaussian particle-number sampling: the covariance handed to the Williamson decomposition and the mean handed to the
+        # sample generator (everything downstream is a function of these) must not depend on hbar
+        cap = {}
+        saved = (gs.williamson, gs._generate_sample)
+
+        def will_stub(cov, connector):
+            cap["cov"] = cov
+            n = numpy.asarray(cov, dtype=object).shape[0]
+            return numpy.identity(n), numpy.identity(n)
+
+        def gen_stub(*a, **k):
+            cap["mean"] = k["mean"]
+            return numpy.zeros(d, dtype=int)
+        gs.williamson, gs._generate_sample = will_stub, gen_stub
+        try:
+            with cm.patched_np(env, gs):
+                gs._get_particle_number_measurement_samples(st, pq.ParticleNumberMeasurement().on_modes(*range(d)), 1)
+        finally:
+            gs.williamson, gs._generate_sample = saved
+        return [("covariance handed to williamson", cap["cov"]), ("mean handed to the sample generator", cap["mean"])]
     if obs == "density_inputs":
         calc = st._get_density_matrix_calculation()
         out = [("A", calc._A if hasattr(calc, "_A") else calc.A)] if (hasattr(calc, "_A") or hasattr(calc, "A")) else []
@@ -249,7 +270,11 @@ def h_hbar_invariance(env, obs, d, displaced=True):
         extra["b"] = env.real_vec("qb", 2 * d)
     fn = {"purity": "get_purity", "parity": "get_parity_operator_expectation_value", "xp_string": "get_xp_string_moment",
           "ladder_string": "get_ladder_string_moment", "threshold_inputs": "get_threshold_detection_probability",
-          "density_inputs": "_get_density_matrix_calculation", "quadratic_polynomial": "quadratic_polynomial_expectation"}.get(obs, obs)
+          "density_inputs": "_get_density_matrix_calculation", "quadratic_polynomial": "quadratic_polynomial_expectation",
+          "pnm_sampling_inputs": "reduced"}.get(obs, obs)
+    if obs == "pnm_sampling_inputs":
+        env.functions.append(core.fn_ref(gs._get_particle_number_measurement_samples))
+        env.stubs.append("williamson (LAPACK) and _generate_sample (loop hafnian, RNG) replaced by capture stubs: the obligation is that their inputs do not depend on hbar")
     _fns(env, fn, "xxpp_covariance_matrix", "xxpp_mean_vector", "complex_covariance", "complex_displacement")
     if obs == "threshold_inputs":
         env.stubs.append("calculate_click_probability(_nondisplaced) (C++ torontonian) replaced by a capture stub: the obligation is that the "
@@ -318,6 +343,8 @@ def instances(tier, seed):
             out.append(("hbar_invariance", {"obs": obs, "d": d}))
     out.append(("hbar_invariance", {"obs": "purity", "d": 1, "displaced": False}))
     out.append(("hbar_invariance", {"obs": "threshold_inputs", "d": 2, "displaced": False}))
+    for d in (1, 2):
+        out.append(("hbar_invariance", {"obs": "pnm_sampling_inputs", "d": d}))
     return out
 
 
